@@ -220,6 +220,15 @@ func handlePayload(h *Handler, errResp errorResponder, p dataPayload, e xmlstrea
 
 	conn.readLock.Lock()
 	defer conn.readLock.Unlock()
+	if conn.readClosed {
+		// The stream was closed locally: refuse the data like we would for an
+		// unknown session.
+		_, err := xmlstream.Copy(e, errResp.Error(stanza.Error{
+			Type:      stanza.Cancel,
+			Condition: stanza.ItemNotFound,
+		}))
+		return err
+	}
 	var inputErr base64.CorruptInputError
 	dataLen := base64.StdEncoding.DecodedLen(len(p.Data))
 	// If this would cause the buffer to grow beyond the maximum size, send back
